@@ -305,7 +305,8 @@ pub struct CacheBuilder<K, V, C> {
 }
 //@@ END
 
-/// the concurrent cache: with_everything -> BaseCache::new -> Inner::new is NOT under contract (DashMap, channels): assumed
+/// the concurrent cache: the contract of with_everything (-> BaseCache::new -> Inner::new) is PROVED on the real text in unit `sync`
+/// (there as `built_with` over the stored fields); here it is the assumed stub the builders are verified against
 #[verifier::external_body]
 #[verifier::reject_recursive_types(K)]
 #[verifier::reject_recursive_types(V)]
@@ -331,6 +332,8 @@ impl<K, V, S> Cache<K, V, S> {
         requires
             time_to_live.is_some() ==> dur_ns(time_to_live.unwrap()) <= max_dur_ns(), //@ [C17,C08]
             time_to_idle.is_some() ==> dur_ns(time_to_idle.unwrap()) <= max_dur_ns(), //@ [C17,C08]
+            // ASSUMPTION on the configuration (see unit `sync`, Inner::new): initial capacity + write-log size (384) fits in usize
+            initial_capacity.is_some() ==> initial_capacity.unwrap() + 384 <= usize::MAX, //@ [C08]
         ensures r.sp_max_capacity() == max_capacity, r.sp_hasher() == build_hasher, r.sp_weigher() == weigher,
             r.sp_ttl() == time_to_live, r.sp_tti() == time_to_idle,
     { unimplemented!() }
@@ -376,6 +379,9 @@ where
 
 //@@ FN file=src/sync/builder.rs owner=CacheBuilder name=build tags=C17
     pub fn build(self) -> /*@+*/(r:/*@-*/ Cache<K, V, RandomState>/*@+*/)/*@-*/
+        // ASSUMPTION on the configuration: the initial capacity plus the write-log size fits in usize (beyond that the map
+        // constructor of the dependency panics on the same input in any case)
+        requires self.initial_capacity.is_some() ==> self.initial_capacity.unwrap() + 384 <= usize::MAX, //@ [C08]
         ensures // C17: the five knobs reach the cache unchanged //@
             r.sp_max_capacity() == self.max_capacity, r.sp_weigher() == self.weigher, //@ [C17]
             r.sp_ttl() == self.time_to_live, r.sp_tti() == self.time_to_idle, //@ [C17]
@@ -397,6 +403,7 @@ where
     pub fn build_with_hasher<S>(self, hasher: S) -> /*@+*/(r:/*@-*/ Cache<K, V, S>/*@+*/)/*@-*/
     where
         S: BuildHasher + Clone + Send + Sync + 'static,
+        requires self.initial_capacity.is_some() ==> self.initial_capacity.unwrap() + 384 <= usize::MAX, //@ [C08]
         ensures //@
             r.sp_max_capacity() == self.max_capacity, r.sp_weigher() == self.weigher, r.sp_hasher() == hasher, //@ [C17]
             r.sp_ttl() == self.time_to_live, r.sp_tti() == self.time_to_idle, //@ [C17]
